@@ -14,6 +14,8 @@ import json, os, subprocess, sys, shutil, time
 ROOT = os.path.dirname(os.path.abspath(__file__))
 SEEDED = os.path.join(ROOT, "seeded")
 ENV = dict(os.environ, CARGO_NET_OFFLINE="true")
+# checks run against a seeded change write their evidence here (git-ignored), never over evidence/<id>.json
+SEED_EVID = os.path.join(ROOT, "evidence", "tmp", "seedrun")
 
 def sh(cmd, cwd=None, timeout=3600):
     p = subprocess.run(cmd, cwd=cwd, env=ENV, shell=isinstance(cmd, str), stdout=subprocess.PIPE, stderr=subprocess.STDOUT, text=True, errors="replace", timeout=timeout)
@@ -100,6 +102,8 @@ def run(seed, checks, tier="quick"):
     try:
         for c in checks:
             t0 = time.time()
+            os.makedirs(SEED_EVID, exist_ok=True)
+            ENV["RQV_EVID"] = SEED_EVID
             rc, out = sh([os.path.join(ROOT, "check"), c, tier], cwd=ROOT, timeout=7200)
             viol = [l for l in out.splitlines() if l.startswith("VIOLATION ")]
             verdict = {0: "MISSED (held)", 1: "CAUGHT", 2: "inconclusive"}.get(rc, "rc=%d" % rc)
